@@ -1237,6 +1237,25 @@ pub fn scale_image(seed: u64) -> (Vec<u8>, Option<usize>) {
         1 => 200 + r.below(800),
         _ => 2000 + r.below(6000),
     };
+    // variant: thousands of track fragments without samples for ONE track, then one fragment with
+    // a very long run (all sample sizes 0, so no payload is needed): looking up a late sample
+    // must not cost (number of fragments) x (samples in the run)
+    if r.chance(1, 4) && !ids.is_empty() {
+        let tid = ids[0];
+        let k = 6000 + r.below(2000) as u32;
+        let run = 100_000 + r.below(40_000) as u32;
+        for seq in 0..k {
+            let traf = bx(b"traf", &full(b"tfhd", 0, 0x020000, &tid.to_be_bytes()));
+            out.extend(bx(b"moof", &cat(&[&full(b"mfhd", 0, 0, &(seq + 1).to_be_bytes()), &traf])));
+        }
+        let mut tr = Vec::with_capacity(8 + 4 * run as usize);
+        tr.extend_from_slice(&run.to_be_bytes());
+        tr.extend_from_slice(&0i32.to_be_bytes());
+        tr.resize(8 + 4 * run as usize, 0);
+        let traf = bx(b"traf", &cat(&[&full(b"tfhd", 0, 0x020000, &tid.to_be_bytes()), &full(b"tfdt", 0, 0, &0u32.to_be_bytes()), &full(b"trun", 0, 0x201, &tr)]));
+        out.extend(bx(b"moof", &cat(&[&full(b"mfhd", 0, 0, &(k + 1).to_be_bytes()), &traf])));
+        return (out, Some(init_len));
+    }
     // fragments: mostly empty ones (mfhd only), some with a small valid traf for a known track;
     // an occasional arbitrary one only when there are few (one bad fragment fails the open)
     for seq in 0..nmoof {
